@@ -40,6 +40,50 @@ def cfg_space(tier):
     return sets
 
 
+def cfg_space_two(tier):
+    """A second fit() with the same evaluator and stopper objects: the evaluator's history is kept ("keep") or
+    cleared ("clear") in between; "p evaluations earlier" counts the evaluations it still holds."""
+    L = 3
+    vals, pats, tols = ("{-1, 0, 2}", "1..2", "{<<1,2>>, <<3,2>>}") if tier == "quick" else \
+        ("{-2, 0, 1, 4}", "1..3", "{<<0,1>>, <<1,2>>, <<3,1>>}")
+    out = []
+    for cbs in ('<<[t |-> "rec"], [t |-> "eval", period |-> 1, kind |-> "metric"], [t |-> "early", period |-> 1, patience |-> pa, tolN |-> tl[1], tolD |-> tl[2], crit |-> cr, ev |-> 2]>>',
+                '<<[t |-> "rec"], [t |-> "early", period |-> 1, patience |-> pa, tolN |-> tl[1], tolD |-> tl[2], crit |-> cr, ev |-> 3], [t |-> "eval", period |-> 1, kind |-> "metric"]>>'):
+        out.append('''{ [type |-> "positive", startEp |-> 1, epochs |-> ne, N |-> 1, posB |-> 1, negB |-> 0,
+       data |-> <<1>>, bases |-> <<>>, sched |-> FALSE, entryStop |-> FALSE, again |-> ag, perms |-> "id",
+       cbs |-> %s, vals |-> <<0>> \\o v, vars |-> <<0, 0, 0, 0>>] :
+       v \\in [1..%d -> %s], pa \\in %s, tl \\in %s, cr \\in {"relative", "absolute"}, ne \\in 2..%d, ag \\in {"keep", "clear"} }'''
+                   % (cbs, L, vals, pats, tols, L))
+    return out
+
+
+def replay_two(chk, beh, seed, n):
+    """first run, what the user does in between, second run on the same objects"""
+    cfg, carry = beh["cfg"], beh["carry"]
+    cfg1 = dict(cfg, again=carry["again"], entryStop=False)
+    for c in (cfg, cfg1):
+        for d in c["cbs"]:
+            if d["t"] == "eval":
+                d["vkind"] = ("float", "np", "tensor0d", "ndarray0d")[n % 4]
+    real1 = trainrun.real_run(cfg1, plan=trainrun.plan_from_hist(carry["hist"]),
+                              force=trainrun.draws_from_hist(carry["hist"]), seed=seed + n, k=0)
+    ok = tc.compare_run(chk, dict(cfg=cfg1, hist=carry["hist"],
+                                  fin=dict(stop=carry["stop"], pver=carry["pver"], sched=0, cbs=carry["cbs"])),
+                        real1, "replay:first-run")
+    if not ok:
+        return
+    for o, d in zip(real1["objs"], cfg["cbs"]):
+        if d["t"] == "eval" and carry["again"] == "clear":
+            o.clear_history()
+        if d["t"] == "early":
+            o.last_epoch = None
+    real1["nn_state"].stop_training = False
+    real = trainrun.real_run(cfg, plan=trainrun.plan_from_hist(beh["hist"]),
+                             force=trainrun.draws_from_hist(beh["hist"]), seed=seed + n, k=0, prev=real1)
+    if tc.compare_run(chk, beh, real, "replay:second-run:" + carry["again"]):
+        post(chk, beh, real, n)
+
+
 def post(chk, beh, real, n):
     cfg = beh["cfg"]
     for i, d in enumerate(cfg["cbs"]):
@@ -121,6 +165,22 @@ def run(tier, seed):
     with warnings.catch_warnings():
         warnings.simplefilter("ignore")       # numpy inf/nan warnings for zero references are expected
         tc.replay_behaviours(chk, behs, seed, nontrivial=nontriv, post=post, opts=opts)
+    # -- two runs on the same evaluator / stopper objects
+    res2 = tc.mc(cfg_space_two(tier), maxinj=0, invariants=["TypeOK", "FirstHit", "Complete", "OnSchedule"], timeout=3400)
+    chk.add_tlc(res2, "Train.tla early stopping, second fit() on the same evaluator and stopper")
+    if res2.violation:
+        chk.violation("spec:" + str(res2.violation), dict(tlc=res2.raw[-4000:]))
+        return chk.finish()
+    two = [b for b in res2.exports if b["carry"]]
+    two = rng.sample(two, min(len(two), 300 if tier == "quick" else 8000))
+    with warnings.catch_warnings():
+        warnings.simplefilter("ignore")
+        for n, beh in enumerate(two):
+            replay_two(chk, beh, seed, n)
+            chk.evaluations += 1
+            if nontriv(beh):
+                chk.nontriv(("two-runs", n))
+    chk.extra["two_run_behaviours_replayed"] = len(two)
     construction_table(chk)
     # -- code -> spec: longer randomised runs (patience up to 5, values 0..9, any tolerance)
     runs = []
